@@ -370,6 +370,10 @@ def simulated_anneal_tree(
         if progbar:
             pbar.update()
 
+    # nodes have been re-created: invalidate any compiled contractions and
+    # the cached contraction information of their (untouched) parents
+    tree._reset_contraction_recipes()
+
     return tree
 
 
